@@ -276,7 +276,7 @@ def grid(seed_: int, n: int, resmodels=(4, 3), econs=(1, 2, 3), with_extras: boo
         plants = HEAT_PLANTS if eu == 2 else ELEC_PLANTS
         for pl in plants:
             for ec in econs:
-                combos.append((eu, pl, ec))
+                combos += [(eu, pl, ec)] * (1 if eu in COGEN else 3)  # the six cogeneration variants would dominate
     rng.shuffle(combos)
     out = []
     for k in range(n):
